@@ -27,6 +27,75 @@ type ScalarMove struct {
 	To   string `json:"to"`
 	Aux  string `json:"aux,omitempty"`
 	Cond uint64 `json:"cond,omitempty"`
+	// FromVia: how the object came to hold From before it is moved: "" (limbs written), "setuint64", "decode", "add"
+	// (From-1 plus one), "random" (scripted entropy) — whatever bookkeeping those paths attach to an object is then present.
+	FromVia string `json:"from_via,omitempty"`
+}
+
+// Havoc is the To of a move whose outcome the statement of no property fixes (a rejected Decode of a value >= n
+// overwrites the receiver): the object's value afterwards is whatever Encode reports, and every other observer must
+// agree with that.
+const Havoc = "havoc"
+
+// Start returns a scalar object holding From, built the way FromVia says.
+func (mv ScalarMove) Start() *secp256k1.Scalar {
+	from := BigH(mv.From)
+
+	switch mv.FromVia {
+	case "setuint64":
+		if !from.IsUint64() {
+			panic("harness: setuint64 start value does not fit")
+		}
+
+		return secp256k1.NewScalar().SetUInt64(from.Uint64())
+	case "decode":
+		s := secp256k1.NewScalar()
+		if err := s.Decode(oracle.Bytes32(from)); err != nil {
+			panic("harness: scalar start value rejected: " + err.Error())
+		}
+
+		return s
+	case "add":
+		return Scal(oracle.Mod(new(big.Int).Sub(from, big.NewInt(1)), oracle.N)).Add(secp256k1.NewScalar().One())
+	case "random":
+		if from.Sign() == 0 {
+			return secp256k1.NewScalar()
+		}
+
+		old := rand.Reader
+		rand.Reader = bytes.NewReader(oracle.Bytes32(from))
+
+		defer func() { rand.Reader = old }()
+
+		return secp256k1.NewScalar().Random()
+	}
+
+	return Scal(from)
+}
+
+// MoveScalar builds the object of a move, lets observe look at it while it holds From (so that anything memoised is
+// filled), applies the move and returns the object together with the value it must now hold. A panic of the mutator is
+// returned as panicked/pv (harness panics are re-raised).
+func MoveScalar(mv ScalarMove, observe func(*secp256k1.Scalar)) (s *secp256k1.Scalar, to *big.Int, panicked bool, pv any) {
+	s = mv.Start()
+
+	if observe != nil {
+		observe(s)
+	}
+
+	if panicked, pv = Call(func() { ApplyScalarMove(s, mv) }); panicked {
+		if IsHarnessPanic(pv) {
+			panic(pv)
+		}
+
+		return s, nil, true, pv
+	}
+
+	if mv.To == Havoc {
+		return s, ScalVal(s), false, nil
+	}
+
+	return s, BigH(mv.To), false, nil
 }
 
 // ScalarVias lists the mutators a scalar can be moved through.
@@ -34,6 +103,8 @@ var ScalarVias = []string{
 	"set", "decode", "unmarshal", "decodehex", "cselect0", "cselect1", "cselect-high", "add", "sub", "mul", "setuint64",
 	"zero", "one", "minusone", "random", "invert", "pow", "square", "set-nil", "mul-nil", "pow-nil", "decode-rejected",
 	"random-high", "random-retry",
+	"add-self", "sub-self", "mul-self", "set-self", "cselect-self", "pow-self", "add-to-zero", "add-to-one", "sub-equal", "decode-rejected-range",
+	"unmarshal-rejected-range", "decodehex-rejected-range", "lessorequal-nil-recovered", "random-fault-recovered", "copy-then-change-copy", "set-then-change-source",
 }
 
 // PlanScalarMove draws a transition through the given mutator.
@@ -82,8 +153,87 @@ func PlanScalarMove(via string, r *gen.Rng) ScalarMove {
 		to = from
 	}
 
+	// one time in three the object starts from a 64-bit value set through SetUInt64 (top bit set half of the time), where
+	// the mutator leaves the start value free
+	free := map[string]bool{"set": true, "decode": true, "unmarshal": true, "decodehex": true, "cselect0": true, "cselect1": true, "cselect-high": true, "add": true, "sub": true,
+		"setuint64": true, "zero": true, "one": true, "minusone": true, "random": true, "random-high": true, "random-retry": true, "set-nil": true, "mul-nil": true, "pow-nil": true,
+		"decode-rejected": true, "square": true, "add-self": true, "sub-self": true, "mul-self": true, "set-self": true, "cselect-self": true, "pow-self": true, "add-to-zero": true,
+		"add-to-one": true, "sub-equal": true, "decode-rejected-range": true, "unmarshal-rejected-range": true, "decodehex-rejected-range": true, "lessorequal-nil-recovered": true,
+		"random-fault-recovered": true, "copy-then-change-copy": true, "set-then-change-source": true}
+
+	if free[via] {
+		switch r.Intn(6) {
+		case 0, 1:
+			u := r.U64() >> uint(r.Intn(8))
+			if r.Bool() {
+				u |= 1 << 63
+			}
+
+			from = new(big.Int).SetUint64(u)
+			mv.FromVia = "setuint64"
+		case 2:
+			mv.FromVia = "decode"
+		case 3:
+			mv.FromVia = "add"
+		case 4:
+			mv.FromVia = "random"
+		}
+	}
+
+	if from.Sign() == 0 && (via == "add-to-zero" || via == "add-to-one" || via == "pow-self") {
+		from = big.NewInt(7)
+		mv.FromVia = ""
+	}
+
+	havoc := false
+
+	switch via {
+	case "square", "mul-self":
+		to = oracle.Mod(new(big.Int).Mul(from, from), n)
+	case "add-self":
+		to = oracle.Mod(new(big.Int).Lsh(from, 1), n)
+	case "sub-self", "add-to-zero", "sub-equal":
+		to = new(big.Int)
+	case "add-to-one":
+		to = big.NewInt(1)
+	case "set-self", "cselect-self", "lessorequal-nil-recovered", "random-fault-recovered", "copy-then-change-copy", "set-then-change-source", "decode-rejected":
+		to = from
+	case "pow-self":
+		to = new(big.Int).Exp(from, from, n)
+	case "decode-rejected-range", "unmarshal-rejected-range", "decodehex-rejected-range":
+		havoc = true
+	}
+
+	if via == "cselect-self" {
+		mv.Cond = []uint64{0, 1, 2, 1 << 63, ^uint64(0)}[r.Intn(5)]
+	}
+
+	if via == "random-fault-recovered" {
+		mv.Cond = uint64(r.Intn(32)) // bytes the source delivers before it fails
+	}
+
 	mv.From, mv.To = hx(from), hx(to)
 	mv.Aux = hx(gen.Draw(r, n).X)
+
+	if havoc {
+		// Aux is the rejected input: an integer in [n, 2^256)
+		span := new(big.Int).Sub(new(big.Int).Lsh(big.NewInt(1), 256), n)
+
+		var v *big.Int
+
+		switch r.Intn(5) {
+		case 0:
+			v = new(big.Int).Set(n)
+		case 1:
+			v = new(big.Int).Add(n, big.NewInt(int64(1+r.Intn(3))))
+		case 2:
+			v = new(big.Int).Sub(new(big.Int).Lsh(big.NewInt(1), 256), big.NewInt(int64(1+r.Intn(3))))
+		default:
+			v = new(big.Int).Add(n, oracle.Mod(gen.Draw(r, n).X, span))
+		}
+
+		mv.Aux, mv.To = hx(v), Havoc
+	}
 
 	return mv
 }
@@ -91,7 +241,11 @@ func PlanScalarMove(via string, r *gen.Rng) ScalarMove {
 // ApplyScalarMove performs the transition on s, which must currently hold From.
 func ApplyScalarMove(s *secp256k1.Scalar, mv ScalarMove) {
 	n := oracle.N
-	from, to, aux := BigH(mv.From), BigH(mv.To), BigH(mv.Aux)
+	from, to, aux := BigH(mv.From), new(big.Int), BigH(mv.Aux)
+	if mv.To != Havoc {
+		to = BigH(mv.To)
+	}
+
 	must := func(err error) {
 		if err != nil {
 			panic("harness: scalar move " + mv.Via + " rejected a canonical value: " + err.Error())
@@ -163,6 +317,60 @@ func ApplyScalarMove(s *secp256k1.Scalar, mv ScalarMove) {
 		s.Pow(nil).Pow(NilScal)
 	case "decode-rejected":
 		_ = s.Decode(oracle.Bytes32(to)[:31])
+	case "add-self":
+		s.Add(s)
+	case "sub-self":
+		s.Subtract(s)
+	case "mul-self":
+		s.Multiply(s)
+	case "set-self":
+		s.Set(s)
+	case "cselect-self":
+		must(s.CSelect(mv.Cond, s, s))
+	case "pow-self":
+		s.Pow(s)
+	case "add-to-zero":
+		s.Add(Scal(new(big.Int).Sub(n, from)))
+	case "add-to-one":
+		s.Add(Scal(oracle.Mod(new(big.Int).Sub(big.NewInt(1), from), n)))
+	case "sub-equal":
+		s.Subtract(Scal(from))
+	case "decode-rejected-range", "unmarshal-rejected-range", "decodehex-rejected-range":
+		var err error
+
+		switch mv.Via {
+		case "decode-rejected-range":
+			err = s.Decode(oracle.Bytes32(aux))
+		case "unmarshal-rejected-range":
+			err = s.UnmarshalBinary(oracle.Bytes32(aux))
+		default:
+			err = s.DecodeHex(H(oracle.Bytes32(aux)))
+		}
+
+		if err == nil {
+			panic("harness: scalar move " + mv.Via + ": a value >= n was accepted (C07's business)")
+		}
+	case "lessorequal-nil-recovered":
+		// the documented misuse: LessOrEqual dereferences its argument; the caller recovers and carries on
+		_, _ = Call(func() { s.LessOrEqual(nil) })
+	case "random-fault-recovered":
+		old := rand.Reader
+		rand.Reader = bytes.NewReader(oracle.Bytes32(aux)[:int(mv.Cond%32)])
+
+		func() {
+			defer func() { rand.Reader = old }()
+
+			_, _ = Call(func() { s.Random() })
+		}()
+	case "copy-then-change-copy":
+		c := s.Copy()
+		c.Add(Scal(aux)).Square().Invert()
+		_, _ = c.Encode(), c.Bits()
+	case "set-then-change-source":
+		src := Scal(from)
+		s.Set(src)
+		src.MinusOne().Square()
+		_ = src.Encode()
 	default:
 		panic("harness: unknown scalar move " + mv.Via)
 	}
